@@ -22,12 +22,13 @@ import (
 // Monitors: recover() guard, child-process crash log, CPU-time watchdog, address-space limit.
 
 type c20Witness struct {
-	Origin string            `json:"origin"`
-	Stage  string            `json:"stage"`
-	Input  string            `json:"input"`
-	Files  map[string]string `json:"files,omitempty"`
-	Root   string            `json:"root_location,omitempty"`
-	Allow  bool              `json:"external_refs_allowed"`
+	Origin     string            `json:"origin"`
+	Stage      string            `json:"stage"`
+	Input      string            `json:"input"`
+	Files      map[string]string `json:"files,omitempty"`
+	Root       string            `json:"root_location,omitempty"`
+	Allow      bool              `json:"external_refs_allowed"`
+	WithOrigin bool              `json:"include_origin,omitempty"`
 }
 
 func init() {
@@ -37,8 +38,8 @@ func init() {
 		Assumptions: []string{
 			"hang = one input consuming more than 30 CPU-seconds; network access is impossible (reader overridden by an in-memory file system)",
 		},
-		Shards:         func(string) int { return 16 + len(c20CrashProbes()) + 1 }, // 16 workload shards + one process per crash probe + the file entry points
-		Run:            runC20,
+		Shards: func(string) int { return 16 + len(c20CrashProbes()) + 1 }, // 16 workload shards + one process per crash probe + the file entry points
+		Run:    runC20,
 		CrashFeatures: func(caseDesc string) map[string]string {
 			if strings.Contains(caseDesc, "probe:nonproductive-schema-cycle") {
 				return map[string]string{"probe": "nonproductive-schema-cycle"}
@@ -51,11 +52,12 @@ func init() {
 }
 
 type c20input struct {
-	origin string
-	data   []byte
-	files  map[string]string // in-memory FS (path -> content); nil = none
-	root   string            // root location ("" = LoadFromData)
-	both   bool              // run with external references allowed as well, even without a file system
+	origin     string
+	data       []byte
+	files      map[string]string // in-memory FS (path -> content); nil = none
+	root       string            // root location ("" = LoadFromData)
+	both       bool              // run with external references allowed as well, even without a file system
+	withOrigin bool              // load with openapi3.IncludeOrigin on (source positions are attached to the elements)
 }
 
 func runC20(c *core.Ctx) {
@@ -102,6 +104,9 @@ func runC20(c *core.Ctx) {
 	}
 	for _, s := range seeds {
 		emit(s)
+		so := s
+		so.origin, so.withOrigin = s.origin+" (IncludeOrigin)", true
+		emit(so)
 	}
 	// (a) type confusion
 	for _, s := range seeds {
@@ -406,6 +411,23 @@ func c20RefGraphs() []c20input {
 		paths := gen.S{"/k": gen.S{"post": gen.S{"responses": gen.S{"200": gen.S{"description": "d"}}, "callbacks": gen.S{"start": gen.S{"$ref": "#/components/callbacks/K0"}}}}}
 		out = append(out, c20input{origin: fmt.Sprintf("fan-in-chain-%d through callbacks", n), data: mk(gen.S{"callbacks": cbs}, paths)})
 	}
+	// path items reached again from inside themselves
+	okResp := gen.S{"200": gen.S{"description": "d"}}
+	for _, pc := range []struct {
+		name  string
+		paths gen.S
+	}{
+		{"callback path item is the enclosing path", gen.S{"/a": gen.S{"post": gen.S{"responses": okResp, "callbacks": gen.S{"c": gen.S{"{$request.body#/u}": gen.S{"$ref": "#/paths/~1a"}}}}}}},
+		{"callback path item is another path using it", gen.S{"/a": gen.S{"post": gen.S{"responses": okResp, "callbacks": gen.S{"c": gen.S{"{$request.body#/u}": gen.S{"$ref": "#/paths/~1b"}}}}}, "/b": gen.S{"get": gen.S{"responses": okResp, "callbacks": gen.S{"c": gen.S{"{$request.body#/u}": gen.S{"$ref": "#/paths/~1a"}}}}}}},
+		{"path refers to itself", gen.S{"/a": gen.S{"$ref": "#/paths/~1a"}}},
+		{"two paths refer to each other", gen.S{"/a": gen.S{"$ref": "#/paths/~1b"}, "/b": gen.S{"$ref": "#/paths/~1a"}}},
+		{"component callback holds the path that uses it", gen.S{"/a": gen.S{"post": gen.S{"responses": okResp, "callbacks": gen.S{"c": gen.S{"$ref": "#/components/callbacks/C"}}}}}},
+	} {
+		name, paths := pc.name, pc.paths
+		comps := gen.S{"callbacks": gen.S{"C": gen.S{"{$request.body#/u}": gen.S{"$ref": "#/paths/~1a"}}}}
+		out = append(out, c20input{origin: "path-item-cycle: " + name, data: mk(comps, paths), both: true})
+		out = append(out, c20input{origin: "path-item-cycle+fs: " + name, data: mk(comps, paths), files: map[string]string{"root.json": string(mk(comps, paths))}, root: "root.json"})
+	}
 	// long chains
 	for _, n := range []int{10, 200, 1000} {
 		schemas := gen.S{}
@@ -479,8 +501,12 @@ func c20Yaml() []c20input {
 		"types-list":        head + "components:\n  schemas:\n    A: {type: [], items: 3, properties: [], required: x, enum: 3, allOf: {}, additionalProperties: 7, pattern: 5, format: [], externalDocs: 1, xml: [], default: {a: [1, {b: null}]}}\n",
 	}
 	var out []c20input
+	docs["empty-mapping-in-sequence"] = head + "tags:\n- {}\n- name: t\nservers:\n- {}\nsecurity:\n- {}\n"
+	docs["empty-sequence-items"] = head + "tags: []\nservers:\n-\n- ~\n- []\n- - {}\ncomponents:\n  schemas:\n    A: {allOf: [{}, {}], enum: [{}, [], [{}]], required: []}\n"
+	docs["flow-and-block-mix"] = head + "components:\n  parameters:\n    P: {name: p, in: query, schema: {type: array, items: {}}, examples: {}}\n  schemas:\n    A:\n      type: object\n      properties: {}\n      example:\n      - {}\n      - - {}\n"
 	for _, k := range sortedStringKeys(docs) {
 		out = append(out, c20input{origin: "yaml " + k, data: []byte(docs[k])})
+		out = append(out, c20input{origin: "yaml " + k + " (IncludeOrigin)", data: []byte(docs[k]), withOrigin: true})
 	}
 	return out
 }
@@ -506,15 +532,23 @@ func c20Run(c *core.Ctx, in c20input) {
 
 func c20RunOne(c *core.Ctx, in c20input, allow bool) {
 	c.BeginLazy(func() string {
-		b, _ := json.Marshal(c20Witness{Origin: in.origin, Input: string(in.data), Files: in.files, Root: in.root, Allow: allow})
+		b, _ := json.Marshal(c20Witness{Origin: in.origin, Input: string(in.data), Files: in.files, Root: in.root, Allow: allow, WithOrigin: in.withOrigin})
 		return string(b)
 	})
 	report := func(stage string, pi *core.PanicInfo) {
 		f := core.PanicFeatures(pi)
 		f["stage"] = stage
-		c.Violate(f, c20Witness{Origin: in.origin, Stage: stage, Input: core.Truncate(string(in.data), 20000), Files: in.files, Root: in.root, Allow: allow},
+		if in.withOrigin {
+			f["include_origin"] = "true"
+			if strings.Contains(pi.Stack, "yaml3.addOriginInSeq") {
+				f["in_dependency"] = "yaml3.addOriginInSeq"
+			}
+		}
+		c.Violate(f, c20Witness{Origin: in.origin, Stage: stage, Input: core.Truncate(string(in.data), 20000), Files: in.files, Root: in.root, Allow: allow, WithOrigin: in.withOrigin},
 			fmt.Sprintf("origin=%s stage=%s\npanic: %s\n%s", in.origin, stage, pi.Value, core.Truncate(pi.Stack, 3500)))
 	}
+	openapi3.IncludeOrigin = in.withOrigin
+	defer func() { openapi3.IncludeOrigin = false }()
 	loader := openapi3.NewLoader()
 	loader.IsExternalRefsAllowed = allow
 	reads := 0
@@ -616,7 +650,7 @@ func replayC20(c *core.Ctx, raw json.RawMessage) {
 			return
 		}
 	}
-	c20RunOne(c, c20input{origin: w.Origin, data: []byte(w.Input), files: w.Files, root: w.Root}, w.Allow)
+	c20RunOne(c, c20input{origin: w.Origin, data: []byte(w.Input), files: w.Files, root: w.Root, withOrigin: w.WithOrigin}, w.Allow)
 }
 
 var _ = rand.Int
